@@ -12,7 +12,7 @@ EXTRA = {"C01-e": ["C02", "C14"], "C03-e": ["C01"], "C13-e": ["C03", "C01"], "C1
 EXTRA.update({"C01-f": ["C03"], "C01-g": ["C06", "C03"], "C05-f": ["C03"], "C05-g": ["C12", "C01"], "C09-f": [], "C14-f": ["C01", "C02"], "C14-g": ["C03", "C16"],
   "C03-g": ["C06"], "C07-f": ["C12"], "C11-g": ["C07"], "C15-f": ["C19"], "C15-g": ["C19"], "C20-f": ["C04"], "C20-g": ["C17"], "C04-f": ["C10"], "C04-g": ["C10", "C19"],
   "C08-f": ["C09"], "C12-f": ["C07"], "C12-g": ["C09"], "C16-f": ["C03", "C01"], "C16-g": ["C03"]})
-EXTRA.update({"C01-j": ["C03"], "C02-k": ["C15"], "C17-k": ["C12"], "C20-k": ["C04"], "C12-j": ["C05"]})
+EXTRA.update({"C02-l": ["C17"], "C01-j": ["C03"], "C02-k": ["C15"], "C17-k": ["C12"], "C20-k": ["C04"], "C12-j": ["C05"]})
 only = sys.argv[1:]
 jobs = []
 for d in sorted(os.listdir(V + "/seeded")):
